@@ -659,6 +659,126 @@ theorem psdVerdict_rejects_nonhermitian (M : CMat) (eigs : List Rat) (atol : Rat
 
 example : tpTrace 2 [(1, 0), (1, 0)] [1/2, 1/2, 1/2, 1/2] 0 = some true := by decide +kernel
 
+section bridge3
+open Matrix
+/-- C01.4 `is_hermitian` at tolerance 0 on a well-sized model matrix decides exact Hermiticity of the matrix it denotes. -/
+theorem isHermitian_zero_iff (M : CMat) (hok : M.ok = true) :
+    isHermitian M 0 = some true ↔ M.toMatrix.IsHermitian := by
+  constructor
+  · intro hv
+    have hr : mutil_is_hermitian_rtol = 0 := by decide
+    have hlen : M.e.length = M.d * M.d := by simpa [CMat.ok] using hok
+    unfold isHermitian at hv
+    simp only [hok, Bool.not_true, Bool.false_eq_true, ↓reduceIte, adjoint_eq M hok, Option.bind_eq_bind,
+      Option.bind_some, allSome_true_iff, List.mem_map, hr] at hv
+    ext i j
+    rw [Matrix.conjTranspose_apply]
+    simp only [CMat.toMatrix, Matrix.of_apply]
+    set k := i.val * M.d + j.val with hk
+    have hkl : k < M.d * M.d := by
+      calc k < i.val * M.d + M.d := by have := j.isLt; omega
+        _ = (i.val + 1) * M.d := by ring
+        _ ≤ M.d * M.d := Nat.mul_le_mul_right _ i.isLt
+    have hdiv : k / M.d = i.val := by
+      rw [hk, Nat.add_comm, Nat.add_mul_div_right _ _ (Nat.pos_of_ne_zero (by have := i.isLt; omega)),
+        Nat.div_eq_of_lt j.isLt, Nat.zero_add]
+    have hmod : k % M.d = j.val := by
+      rw [hk, Nat.add_comm, Nat.add_mul_mod_self_right, Nat.mod_eq_of_lt j.isLt]
+    -- the k-th pair of the zip
+    have hpair := hv (isCloseCC (M.e.getD k (0,0))
+        ((M.e.getD ((k % M.d) * M.d + k / M.d) (0, 0)).1, -(M.e.getD ((k % M.d) * M.d + k / M.d) (0, 0)).2) 0 0)
+      ⟨(M.e.getD k (0,0), ((M.e.getD ((k % M.d) * M.d + k / M.d) (0, 0)).1,
+          -(M.e.getD ((k % M.d) * M.d + k / M.d) (0, 0)).2)), by
+        rw [List.mem_iff_getElem]
+        refine ⟨k, by simp [hlen, hkl], ?_⟩
+        simp [List.getElem_zip, List.getD_eq_getElem?_getD, List.getElem?_eq_getElem (show k < M.e.length by omega)], rfl⟩
+    rw [closeCC_zero_iff, hmod, hdiv] at hpair
+    rw [(toC_eq_star_iff _ _).2 hpair]
+  · intro hH; exact isHermitian_of_toMatrix M 0 hok le_rfl hH
+/-- the trace the model computes (`np.trace` of the density matrix) is the trace of the matrix the model matrix denotes -/
+theorem trace_toMatrix (M : CMat) (hok : M.ok = true) (z : C) (h : M.trace = some z) : toC z = M.toMatrix.trace := by
+  have hlen : M.e.length = M.d * M.d := by simpa [CMat.ok] using hok
+  have hm : (List.range M.d).mapM (fun i => M.e[i * M.d + i]?) =
+      some ((List.range M.d).map fun i => M.e.getD (i * M.d + i) (0, 0)) := by
+    apply mapM_some_map
+    intro i hi
+    rw [List.mem_range] at hi
+    have hidx : i * M.d + i < M.e.length := by
+      rw [hlen]
+      calc i * M.d + i < i * M.d + M.d := by omega
+        _ = (i + 1) * M.d := by ring
+        _ ≤ M.d * M.d := Nat.mul_le_mul_right _ hi
+    simp [List.getD_eq_getElem?_getD, List.getElem?_eq_getElem hidx]
+  unfold CMat.trace at h
+  rw [hm] at h
+  simp only [Option.map_some, Option.some.injEq, foldl_add_const, zero_add] at h
+  rw [← h, toC_sum, List.map_map, list_range_sum_fin]
+  simp [Matrix.trace, CMat.toMatrix]
+
+/-- C01.1 exactness stated on the executed `State.is_trace_one`: it is the exact test `|tr ρ − 1| ≤ atol` for every density matrix
+with a real trace and every tolerance if and only if the generated relative tolerance is 0 (it is 1e-5 on the current tree: D1). -/
+theorem stateTraceOne_exact_iff_rtol_zero :
+    (∀ (rho : CMat) (x atol : Rat), rho.trace = some (x, 0) → 0 ≤ atol →
+        (stateTraceOne rho atol = some true ↔ |x - 1| ≤ atol)) ↔ state_is_trace_one_rtol = 0 := by
+  rw [← traceOne_exact_iff_rtol_zero]
+  constructor
+  · intro h x atol ha
+    have ht : (⟨1, [(x, 0)]⟩ : CMat).trace = some (x, 0) := by simp [CMat.trace]
+    have := h ⟨1, [(x, 0)]⟩ x atol ht ha
+    rw [← this]
+    unfold stateTraceOne; rw [ht]; simp
+  · intro h rho x atol ht ha
+    rw [← h x atol ha]
+    unfold stateTraceOne; rw [ht]; simp
+
+example : isHermitian ⟨2, [(1/2, 0), (1/4, 1/8), (1/4, -1/8), (1/2, 0)]⟩ 0 = some true := by decide +kernel
+end bridge3
+
+/-! ## the basis verdicts that feed the identity-first flag -/
+
+/-- C01.3 `MatrixBasis.is_orthogonal` on the executed function: true exactly when every pair of distinct elements (earlier, later) has
+`|⟨left, right⟩| ≤ atol` — exact, whatever the generated relative tolerance, because the reference value is 0. -/
+theorem basisIsOrthogonal_iff (B : List CMat) (g rtol : Rat) (hg : 0 ≤ g) :
+    basisIsOrthogonal B g rtol = true ↔
+      ∀ p ∈ pairsBefore B, (vdot p.1.e p.2.e).1 * (vdot p.1.e p.2.e).1 + (vdot p.1.e p.2.e).2 * (vdot p.1.e p.2.e).2 ≤ g * g := by
+  unfold basisIsOrthogonal
+  rw [List.all_eq_true]
+  constructor
+  · intro h p hp; have := (isCloseCR_iff _ _ _ _).1 (h p hp); simpa using this.2
+  · intro h p hp; rw [isCloseCR_iff]; simpa [hg] using h p hp
+
+/-- C01.3 `is_normal` on the executed function: every element has `|⟨B_α, B_α⟩ − 1| ≤ atol + rtol` with the GENERATED relative
+tolerance of that call site (numpy's default 1e-5 on the current tree: the normalisation test has the same relative slack as D1). -/
+theorem basisIsNormal_iff (B : List CMat) (g rtol : Rat) :
+    basisIsNormal B g rtol = true ↔
+      ∀ M ∈ B, 0 ≤ g + rtol ∧
+        ((vdot M.e M.e).1 - 1) * ((vdot M.e M.e).1 - 1) + (vdot M.e M.e).2 * (vdot M.e M.e).2 ≤ (g + rtol) * (g + rtol) := by
+  unfold basisIsNormal
+  rw [List.all_eq_true]
+  constructor
+  · intro h M hM; have := (isCloseCR_iff _ _ _ _).1 (h M hM); simpa using this
+  · intro h M hM; rw [isCloseCR_iff]; simpa using h M hM
+
+/-- C01.3 `is_hermitian` of a basis: every element passes `mutil.is_hermitian` at the global tolerance. -/
+theorem basisIsHermitian_iff (B : List CMat) (g : Rat) :
+    basisIsHermitian B g = some true ↔ ∀ M ∈ B, isHermitian M g = some true := by
+  unfold basisIsHermitian
+  rw [allSome_true_iff]
+  constructor
+  · intro h M hM; exact h _ (List.mem_map.2 ⟨M, hM, rfl⟩)
+  · rintro h x hx; rw [List.mem_map] at hx; obtain ⟨M, hM, rfl⟩ := hx; exact h M hM
+
+/-- C01.3 the flag of one subsystem from the modelled basis verdicts through the GENERATED conjunction. -/
+theorem elemental_flag_of_basis (B : List CMat) (g ro rn : Rat) (z : Bool) :
+    elemental_flag (basisIsNormal B g rn) (basisIsOrthogonal B g ro) (basisIsHermitian B g == some true) z = true ↔
+      basisIsNormal B g rn = true ∧ basisIsOrthogonal B g ro = true ∧ basisIsHermitian B g = some true ∧ z = true := by
+  simp [elemental_flag, and_assoc]
+
+-- the normalised 1-qubit Pauli basis restricted to (I, Z)/√2 is not available over ℚ; a rational orthonormal pair instead:
+example : basisIsOrthogonal [⟨2, [(1,0),(0,0),(0,0),(0,0)]⟩, ⟨2, [(0,0),(0,0),(0,0),(1,0)]⟩] 0 (mkRat 1 100000) = true ∧
+    basisIsNormal [⟨2, [(1,0),(0,0),(0,0),(0,0)]⟩, ⟨2, [(0,0),(0,0),(0,0),(1,0)]⟩] 0 (mkRat 1 100000) = true ∧
+    basisIsHermitian [⟨2, [(1,0),(0,0),(0,0),(0,0)]⟩, ⟨2, [(0,1),(0,0),(0,0),(1,0)]⟩] 0 = some false := by decide +kernel
+
 /-! ## the hypotheses are satisfiable / concrete instances -/
 
 example : tpTrace 2 (onh0Traces 2 2) [1, 0, 0, 1/2] 0 = some true := by decide +kernel
